@@ -4,6 +4,7 @@ import (
 	"fmt"
 	"go/types"
 	"math/big"
+	"sort"
 	"strings"
 )
 
@@ -115,7 +116,13 @@ func (c *Ctx) strLit(s string) string {
 	var facts []string
 	facts = append(facts, fmt.Sprintf("(assert (= (blen %s) %d))", name, len(s)))
 	// distinct from earlier literals; prefix facts between literals
-	for o, on := range c.strLits {
+	others := make([]string, 0, len(c.strLits))
+	for o := range c.strLits {
+		others = append(others, o)
+	}
+	sort.Strings(others) // deterministic query text
+	for _, o := range others {
+		on := c.strLits[o]
 		if on == name {
 			continue
 		}
